@@ -985,3 +985,114 @@ Proof.
     + intros j k H. destruct (PB _ _ _ H) as (pc & HT).
       destruct (PT _ _ _ HT) as (pc' & H' & X). rewrite H in H'. inversion H'; subst. apply (K3 j k). rewrite HT, (X eq_refl). reflexivity.
 Qed.
+
+Lemma enabled_list_nil s n : forall from, enabled_list s n from = [] ->
+  forall i, (from <= i < from + n)%nat -> enabled s i = false.
+Proof.
+  induction n as [|n IH]; intros from H i L; [lia|].
+  cbn [enabled_list] in H. apply app_eq_nil in H. destruct H as (H1 & H2).
+  destruct (Nat.eq_dec i from) as [->|N].
+  - destruct (enabled s from); [discriminate|reflexivity].
+  - apply (IH (S from) H2). lia.
+Qed.
+
+Lemma terminal_none_enabled s i : all_enabled s = [] -> enabled s i = false.
+Proof.
+  intros H. destruct (Nat.lt_ge_cases i (length (thrs s))) as [L|L].
+  - apply (enabled_list_nil s _ 0 H). lia.
+  - unfold enabled. apply nth_error_None in L. rewrite L. reflexivity.
+Qed.
+
+Lemma others_done_false l i : forall n, others_done l i n = false ->
+  exists j t, nth_error l j = Some t /\ (n + j)%nat <> i /\ is_rdone t = false.
+Proof.
+  induction l as [|t l IH]; intros n H; cbn [others_done] in H; [discriminate|].
+  apply andb_false_iff in H. destruct H as [H|H].
+  - apply orb_false_iff in H. destruct H as (H1 & H2). exists 0%nat, t. split; [reflexivity|]. split; [|exact H2].
+    apply Nat.eqb_neq in H1. lia.
+  - destruct (IH _ H) as (j & t' & A & B & C). exists (S j), t'. split; [exact A|]. split; [lia|exact C].
+Qed.
+
+(* in a terminal state every resolver call has returned *)
+Lemma terminal_resolvers_done ops s :
+  reachable ops s -> all_enabled s = [] -> forall j k pc, T s j = Some (TR k pc) -> exists r, pc = RDone r.
+Proof.
+  intros R TE. pose proof (inv3_reachable _ _ R) as [K1 K2 K3].
+  assert (NX : forall j k pc, T s j = Some (TR k pc) -> pc <> RXWait -> exists r, pc = RDone r).
+  { intros j k pc H N. pose proof (terminal_none_enabled s j TE) as E. unfold enabled in E. fold (T s j) in E.
+    rewrite H in E. destruct pc; try discriminate; try contradiction; eauto. }
+  intros j k pc H. destruct pc; try (eapply NX; [exact H|discriminate]). exfalso.
+  pose proof (terminal_none_enabled s j TE) as E. unfold enabled in E. fold (T s j) in E. rewrite H in E.
+  destruct (others_done_false _ _ _ E) as (j' & t & A & B & C). cbn [plus] in B.
+  destruct t as [k' pc'|]; [|discriminate].
+  assert (NR : pc' <> RXWait).
+  { intros ->. fold (T s j') in A. apply K3 in A. apply K3 in H. congruence. }
+  destruct (NX _ _ _ A NR) as (r & ->). discriminate.
+Qed.
+
+(* no lost wake-up: when nothing can run any more, the future is ready, the chain, the walk list and the suspend
+   point are empty, and every waiter has gone on with the final payload: released exactly once if it had
+   subscribed, never released otherwise *)
+Theorem no_lost_wakeup ops s :
+  reachable ops s -> all_enabled s = [] ->
+  slot s = SReady /\ chain s = [] /\ walk s = [] /\ acc s = [] /\
+  (exists i k, winner s = Some i /\ T s i = Some (TR k (RDone true)) /\ payload s = payload_of k ONone) /\
+  forall w k pc f, T s w = Some (TW k pc f) ->
+    pc = WDone (payload s) /\
+    count_occ Nat.eq_dec (rel s) w = (if in_dec Nat.eq_dec w (sublog s) then 1 else 0)%nat.
+Proof.
+  intros R TE. pose proof (inv1_reachable _ _ R) as [I1 I2 I3 I4 I5 I6 I7].
+  pose proof (inv2_reachable _ _ R) as J. pose proof (inv3_reachable _ _ R) as [K1 K2 K3].
+  pose proof (terminal_resolvers_done ops s R TE) as RD.
+  destruct K2 as (pcd & HD). destruct (RD _ _ _ HD) as (rd & ->).
+  assert (O : owner s = false).
+  { destruct rd; [|eapply I5; [exact HD|reflexivity]].
+    destruct (owner s) eqn:O; [|reflexivity]. assert (Q : winner s = None) by (apply I1; reflexivity).
+    rewrite (I2 _ _ _ HD eq_refl) in Q. discriminate. }
+  assert (WN : exists i, winner s = Some i).
+  { destruct (winner s) eqn:Wn; [eauto|]. assert (Q : owner s = true) by (apply I1; reflexivity). congruence. }
+  destruct WN as (i & WI). destruct (I3 _ WI) as (k & pc & HI & WP & PL).
+  destruct (RD _ _ _ HI) as (r & ->). destruct r; [|discriminate].
+  assert (SR : slot s = SReady) by (apply I6; exists i, k, (RDone true); auto).
+  destruct (I7 _ _ _ WI HI ltac:(discriminate)) as (KW & KA).
+  assert (CH : chain s = []) by (unfold chain; rewrite SR; reflexivity).
+  refine (conj SR (conj CH (conj KW (conj KA (conj _ _))))); [exists i, k; auto|].
+  intros w kw pc f H. pose proof H as HW. apply W_T in HW.
+  pose proof (terminal_none_enabled s w TE) as E. unfold enabled in E. fold (T s w) in E. rewrite H in E.
+  assert (PD : exists o, pc = WDone o).
+  { destruct pc; try discriminate; eauto.
+    - pose proof (j_parked s J _ _ _ HW) as Q. rewrite CH, KW, KA in Q. destruct Q.
+    - subst f. pose proof (j_flag s J _ _ _ HW) as Q. cbn in Q. rewrite CH, KW in Q. destruct Q. }
+  destruct PD as (o & ->). destruct (j_done s J _ _ _ _ HW) as (_ & -> & SI). split; [reflexivity|].
+  pose proof (j_nodup s J) as ND. rewrite CH, KW, KA in ND. cbn [app] in ND.
+  pose proof (j_sub s J w) as JS. rewrite CH, KW, KA in JS. cbn [app] in JS.
+  destruct (in_dec Nat.eq_dec w (sublog s)) as [IN|NI].
+  - apply JS in IN. pose proof (nodup_count _ w ND). apply (count_occ_In Nat.eq_dec) in IN. lia.
+  - apply count_occ_not_In. intro Q. apply NI. apply JS. exact Q.
+Qed.
+
+(* ---------- the executable scheduler only visits reachable states ---------- *)
+Lemma in_enabled_list s n : forall from i, In i (enabled_list s n from) -> enabled s i = true.
+Proof.
+  induction n as [|n IH]; intros from i H; cbn [enabled_list] in H; [destruct H|].
+  apply in_app_or in H. destruct H as [H|H]; [|eapply IH; exact H].
+  destruct (enabled s from) eqn:E; [|destruct H]. destruct H as [<-|[]]. exact E.
+Qed.
+
+Lemma run_sched_reachable ops fuel : forall s sched tr,
+  reachable ops s -> reachable ops (fst (run_sched fuel s sched tr)).
+Proof.
+  induction fuel as [|fuel IH]; intros s sched tr R; cbn [run_sched]; [exact R|].
+  destruct (all_enabled s) as [|e en] eqn:EN; [exact R|].
+  set (k := match sched with [] => 0 | x :: _ => Z.abs x end).
+  set (i := nth (Z.to_nat (k mod zlen (e :: en))) (e :: en) 0%nat).
+  assert (IN : In i (e :: en)).
+  { apply nth_In. unfold zlen. cbn [length].
+    assert (0 <= k mod Z.of_nat (S (length en)) < Z.of_nat (S (length en))) by (apply Z.mod_pos_bound; lia). lia. }
+  rewrite <- EN in IN. apply in_enabled_list in IN.
+  destruct (tstep s i) as [s1 p] eqn:TS. apply IH.
+  replace s1 with (fst (tstep s i)) by (rewrite TS; reflexivity). apply r_step; assumption.
+Qed.
+
+Theorem run_reachable ops fuel sched : reachable ops (fst (run_sched fuel (init ops) sched [])).
+Proof. apply run_sched_reachable. apply r_init. Qed.
